@@ -1165,10 +1165,19 @@ class ModeEv(Ev01):
 
     def builtin_call(self, d, node):
         args = node.args
-        if d in ("np.any", "np.all", "any", "all") and len(args) == 1:
+        if d in ("np.any", "any") and len(args) == 1:
             return self.ev(args[0])
-        if isinstance(node.func, ast.Attribute) and node.func.attr in ("any", "all") and not args:
+        if isinstance(node.func, ast.Attribute) and node.func.attr == "any" and not args:
             return self.ev(node.func.value)
+        if (d in ("np.all", "all") and len(args) == 1) or (isinstance(node.func, ast.Attribute) and node.func.attr == "all" and not args):
+            # the generic mode is one of many: all(x) is false when x fails for it, and open (it depends on the other modes) when x holds for it
+            v = self.ev(args[0] if args else node.func.value)
+            c = const_of(v) if isinstance(v, F.Rat) else None
+            if c is not None and c == 0:
+                return F.const(0)
+            if c is not None:
+                return F.sym("<holds for the generic mode; depends on the other modes>")
+            return v
         if isinstance(node.func, ast.Attribute) and node.func.attr == "nonzero" and not args:
             return (self.ev(node.func.value),)
         if d in ("np.nonzero", "np.where") and len(args) == 1:
